@@ -230,7 +230,19 @@ def module_input(rng, kind, q, wd):
         shape = (int(rng.integers(1, 4)),) + ((int(rng.integers(1, 3)),) if rng.random() < 0.5 else ()) + tuple(
             q.normalized_shape)
     mag = float(np.exp(rng.uniform(np.log(0.05), np.log(20))))
-    return (torch.from_numpy(rng.standard_normal(shape)) * mag).to(wd)
+    x = (torch.from_numpy(rng.standard_normal(shape)) * mag).to(wd)
+    # memory layouts real models feed to a layer: the result of a transpose (attention blocks), channels_last images,
+    # a strided slice; the values are the same, only the strides change
+    c = rng.random()
+    if c < 0.2 and x.ndim >= 2:
+        x = x.transpose(0, -2).contiguous().transpose(0, -2) if x.ndim >= 3 else x.t().contiguous().t()
+    elif c < 0.3 and x.ndim == 4:
+        x = x.contiguous(memory_format=torch.channels_last)
+    elif c < 0.4 and x.ndim >= 1:
+        big = torch.zeros(tuple(x.shape[:-1]) + (2 * x.shape[-1],), dtype=x.dtype)
+        big[..., ::2] = x
+        x = big[..., ::2]
+    return x
 
 
 def float_twin(kind, q, W64, x64):
